@@ -531,10 +531,18 @@ package wire
 //@ func newObjectCache
 //@   requires len(pkgs) > 0
 //@   ensures result != nil
+// C13: a wire.Value expression is accepted only if every node the syntax walk reaches is of a kind that
+// cannot call a function or receive from a channel (calls are allowed only as type conversions), its
+// type is not an interface type, and the Value provides exactly the written expression with its type.
+// (ast.Inspect visits every node below a node for which the callback returned true: trusted schema.)
+//@ define allowedValueNode(info *types.Info, node ast.Node) = node == nil || (node is *ast.ArrayType) || (node is *ast.BasicLit) || (node is *ast.BinaryExpr) || (node is *ast.ChanType) || (node is *ast.CompositeLit) || (node is *ast.FuncType) || (node is *ast.Ident) || (node is *ast.IndexExpr) || (node is *ast.InterfaceType) || (node is *ast.KeyValueExpr) || (node is *ast.MapType) || (node is *ast.ParenExpr) || (node is *ast.SelectorExpr) || (node is *ast.SliceExpr) || (node is *ast.StarExpr) || (node is *ast.StructType) || (node is *ast.TypeAssertExpr) || ((node is *ast.UnaryExpr) && node.(*ast.UnaryExpr).Op != 36) || ((node is *ast.CallExpr) && !(info.TypeOf(node.(*ast.CallExpr).Fun) is *types.Signature))
 //@ func processValue
 //@   ensures result.1 == nil ==> result.0 != nil
+//@   lensures [C13] result.1 == nil ==> ok
+//@   ensures [C13] result.1 == nil ==> len(call.Args) == 1 && result.0.expr == call.Args[0] && result.0.Out == info.TypeOf(call.Args[0]) && result.0.info == info && !(info.TypeOf(call.Args[0]).Underlying() is *types.Interface)
 //@ func processInterfaceValue
 //@   ensures result.1 == nil ==> result.0 != nil
+//@   ensures [C13] result.1 == nil ==> len(call.Args) == 2 && result.0.expr == call.Args[1] && result.0.info == info && (info.TypeOf(call.Args[0]) is *types.Pointer) && result.0.Out == info.TypeOf(call.Args[0]).(*types.Pointer).Elem() && (result.0.Out.Underlying() is *types.Interface) && types.Implements(info.TypeOf(call.Args[1]), result.0.Out.Underlying().(*types.Interface))
 //@ func processStructProvider
 //@   ensures result.1 == nil ==> result.0 != nil
 //@   ensures [C12] result.1 == nil ==> result.0.IsStruct && len(result.0.Out) == 2 && result.0.Out[1] == info.TypeOf(call.Args[0]) && result.0.Out[0] == info.TypeOf(call.Args[0]).(*types.Pointer).Elem()
@@ -585,10 +593,17 @@ package wire
 //@   requires g != nil && inNewNames != nil
 //@ func (*gen).rewritePkgRefs$4
 //@   requires info != nil
+// C13: an identifier of another package's unexported object, or of an object that is not declared at
+// package scope, sets the error (and the error, once set, stays set).
 //@ func accessibleFrom$1
 //@   requires info != nil
+//@   ensures [C13] (node is *ast.Ident) && !(info.ObjectOf(node.(*ast.Ident)) is *types.PkgName) && info.ObjectOf(node.(*ast.Ident)) != nil && info.ObjectOf(node.(*ast.Ident)).Pkg() != nil && !ast.IsExported(node.(*ast.Ident).Name) && info.ObjectOf(node.(*ast.Ident)).Pkg().Path() != wantPkg ==> unexportError != nil
+//@   ensures [C13] (node is *ast.Ident) && !(info.ObjectOf(node.(*ast.Ident)) is *types.PkgName) && info.ObjectOf(node.(*ast.Ident)) != nil && info.ObjectOf(node.(*ast.Ident)).Pkg() != nil && info.ObjectOf(node.(*ast.Ident)).Parent() != nil && info.ObjectOf(node.(*ast.Ident)).Parent() != info.ObjectOf(node.(*ast.Ident)).Pkg().Scope() ==> unexportError != nil
+//@   frame [C13] old(unexportError != nil) ==> unexportError != nil
 //@ func processValue$1
 //@   requires info != nil
+//@   ensures [C13] !allowedValueNode(info, node) ==> !ok && !result
+//@   frame [C13] old(!ok) ==> !ok
 //@ func verifyAcyclic$1
 //@   requires 0 <= i && i < len(outputs) && 0 <= j && j < len(outputs) && outputs[i] != nil && outputs[j] != nil
 
